@@ -164,6 +164,13 @@ EditsOf(kind) ==
     [] kind = "AttachHeights" -> {[k |-> "AttachHeights", s |-> s] : s \in 1..4}     \* 1: instrument heights, 2: both, 3: small target heights only, 4: small instrument heights only
     [] kind = "MakeFree" -> {[k |-> "MakeFree", s |-> s] : s \in 1..6}
     [] kind = "Isolate" -> {[k |-> "Isolate", s |-> s] : s \in 1..5}      \* 1, 2: sight in the first quadrant (2: with a height difference); 3, 4: second / fourth quadrant; 5: the single element is an angle whose foresight is the new point
+    [] kind = "WeakPoint" -> {[k |-> "WeakPoint", s |-> s] : s \in 1..2}
+         \* a further point tied to the network by observations of practically no weight (standard deviation 20 m): its standard deviation exceeds
+         \* gama-local's limit of 10 m, the point is removed ("huge covariance") and the network is adjusted again without it. 1: the point and its
+         \* observations come first (its unknowns are numbered first and every other unknown is renumbered after the removal), 2: they come last
+    [] kind = "LoneSet" -> {[k |-> "LoneSet", s |-> s] : s \in 1..4}
+         \* a further direction set whose readings all go to ONE target (1: a single reading, 2: two readings to the second point, 3: three readings to the
+         \* last point, 4: two readings taken at the last point): such a set carries no information beyond its own orientation and gama-local excludes it
     [] kind = "InputFeatures" -> {[k |-> "InputFeatures", s |-> s] : s \in 1..9}
          \* optional forms of the input language: 1 a <coordinates> cluster with one point observed in x,y only followed by another observed in z only,
          \* 2 <dh> with dist and stdev, 3 <dh> with dist only, 4 directions with from_dh / to_dh, 5 extern attributes, 6 angles with from_dh / bs_dh / fs_dh, 7 latitude, ellipsoid, algorithm and cov-band in <parameters>, 8 <obs> clusters with a banded covariance matrix, 9 the same written in degrees
@@ -206,6 +213,8 @@ Law(e) ==
     [] e.k = "ChangeDatum" -> [coords |-> "datum", obs |-> "same", stats |-> "same", cov |-> "datum"]
     [] e.k = "AddConsistentObs" -> [coords |-> "truth", obs |-> "superset", stats |-> "any", cov |-> "any"]
     [] e.k = "MakeFree" -> [coords |-> "any", obs |-> "any", stats |-> "any", cov |-> "any", adjustable |-> Adjustable(e)]
+    [] e.k = "WeakPoint" -> [coords |-> "same", obs |-> "same", stats |-> "same", cov |-> "same", removed |-> "W"]
+    [] e.k = "LoneSet" -> [coords |-> "same", obs |-> "same", stats |-> "same", cov |-> "same"]
     [] e.k = "Isolate" -> [coords |-> "same", obs |-> "superset", stats |-> "any", cov |-> "any", removed |-> "X"]
     [] e.k = "Blunder" -> [coords |-> "any", obs |-> "any", stats |-> "any", cov |-> "any",
                            excluded |-> (e.pct > 100), equals |-> (IF e.pct > 100 THEN "Delete" ELSE "Keep")]
@@ -224,6 +233,8 @@ Applicable(e) ==
                                 /\ (e.s = 4 => net.t \in {"tri2d", "polar3d", "fstat3d", "fstat2d"})
                                 /\ (e.s = 6 => net.t \in {"tri2d", "trav2d"})
                                 /\ (e.s \in {8, 9} => net.t \in {"tri2d", "trav2d", "dist2d", "polar3d", "fstat2d", "fstat3d"}))
+  /\ (e.k = "WeakPoint" => Len(edits) = 0 /\ net.t \in {"lev1d", "freelev1d", "tri2d", "dist2d", "free2d", "trav2d"})
+  /\ (e.k = "LoneSet" => net.t \in {"tri2d", "trav2d", "dist2d", "polar3d", "fstat2d", "fstat3d"})
   /\ (e.k = "Isolate" => net.t \in {"tri2d", "dist2d", "polar3d"} /\ (e.s = 5 => net.t \in {"tri2d", "dist2d"}))
   /\ (e.k = "ChangeDatum" => net.t \in FreeTemplates)
   /\ (e.k = "AddConsistentObs" => net.noise = 0)
